@@ -31,6 +31,7 @@ Maths ==
   Plain("Count", {0}) \cup Plain("Sum", {0}) \cup Plain("Min", {0}) \cup Plain("Max", {0})
   \cup {Inst("Clamp", "Clamp", "", 1, 1), Inst("Clamp", "Clamp", "", 0, 1), Inst("Clamp", "Clamp", "", 1, 2)}
   \cup Flav4("Reduce", {0, 3})
+  \cup Plain("Ceil", {0}) \cup Plain("Floor", {0}) \cup Plain("Round", {0}) \cup Plain("Trunc", {0}) \cup Plain("Abs", {0}) \cup Plain("Average", {0})
 Errors == Plain("OnErrorReturn", {9}) \cup Plain("ThrowIfEmpty", {0})
 Utilities ==
   Flav2("Tap", {0}) \cup Flav2("TapOnNext", {0}) \cup Flav2("TapOnError", {0}) \cup Flav2("TapOnComplete", {0})
@@ -40,10 +41,10 @@ Utilities ==
   \cup Alias("TapOnComplete", "DoOnComplete", "", {0}) \cup Alias("TapOnComplete", "DoOnCompleteWithContext", "C", {0})
   \cup Flav2("TapOnSubscribe", {0}) \cup Alias("TapOnSubscribe", "DoOnSubscribe", "", {0}) \cup Alias("TapOnSubscribe", "DoOnSubscribeWithContext", "C", {0})
   \cup Plain("TapOnFinalize", {0}) \cup Alias("TapOnFinalize", "DoOnFinalize", "", {0})
-  \cup Plain("Materialize", {0}) \cup Plain("Serialize", {0})
+  \cup Plain("Materialize", {0}) \cup Plain("Serialize", {0}) \cup Plain("Cast", {0}) \cup Plain("TimeInterval", {0}) \cup Plain("Timestamp", {0})
 Sinks == Plain("ToSlice", {0}) \cup Flav4("ToMap", {0})
 Contexts == Plain("ContextWithValue", {0}) \cup Plain("ContextReset", {0}) \cup Plain("ContextMap", {0}) \cup Alias("ContextMap", "ContextMapI", "I", {0})
-              \cup Plain("ContextWithTimeout", {0})
+              \cup Plain("ContextWithTimeout", {0}) \cup Plain("ContextWithDeadline", {0})
 
 AllInsts == Transformations \cup Filters \cup Conditionals \cup Maths \cup Errors \cup Utilities \cup Sinks \cup Contexts
 
